@@ -40,6 +40,12 @@ CLAIMED['C12'] = dict(level='proof', design='DESIGN.md section 7 (C12)',
          'never exceeded, one order per target, exact durations, hooks and cost once each, no startable order left waiting.',
     note='Trusted: pyvc encoding; rely on target hooks; ghost accounting of capacity in use; handler precondition by hand lemma.',
     technique='contract-based deductive verification: class invariant, loop invariant with ghost maps, rely/guarantee, ghost trace, z3')
+CLAIMED['C18'] = dict(level='proof', design='DESIGN.md section 7 (C18)',
+    text='ActionScheduler verified per method: state/index follow the timetable (advance, wrap, stop), one invocation per '
+         'registered object in registration order with the documented arguments, exactly one next update event after the new '
+         'state\'s duration, register/unregister semantics, cyclical by default.',
+    note='Trusted: pyvc encoding, dict order contracts, rely on actions.  Hand lemma: event-chain induction gives the absolute times.',
+    technique='contract-based deductive verification: loop invariant over dict iteration order, ghost trace of invocations, z3')
 NOT_APPLICABLE = {
     'C04': 'whole-line max-plus recurrence equality is a relational whole-history property outside contract-based '
            'verification (DESIGN.md section 8); its local timing lemmas are proved under C01/C05/C06',
